@@ -310,6 +310,22 @@ func (c *Client) sendRecv(tm message, rm message) error {
 	err := send(c.log, c.conn, tag(t), tm)
 	c.sendMu.Unlock()
 	if err != nil {
+		// Nobody will answer a request that was not sent: stop expecting a
+		// response. Otherwise the entry outlives this call, resp goes back
+		// to the pool and is handed to another call, and a later error
+		// broadcast in handleOne delivers to the same response twice: the
+		// second send blocks forever with pendingMu held.
+		c.pendingMu.Lock()
+		if c.pending[tag(t)] == resp {
+			delete(c.pending, tag(t))
+		}
+		c.pendingMu.Unlock()
+		// An error broadcast may have reached resp already; do not leave
+		// it behind for the next user of resp.
+		select {
+		case <-resp.done:
+		default:
+		}
 		return fmt.Errorf("send: %w", err)
 	}
 
